@@ -1126,6 +1126,12 @@ package rueidis
 //@   option opaque-pkgs=github.com/redis/rueidis/internal/cmds
 //@   modifies *
 //@   assert [C11 an-exec-reply-fills-only-a-slot-that-is-still-unanswered] at ToArray: 0 <= j && j < len(results.s) && results.s[j].val.typ == 0 && results.s[j].err == nil
+//@ func pipe.doCacheMGet #c11
+//@   option opaque-pkgs=github.com/redis/rueidis/internal/cmds
+//@   modifies *
+//@   assert [C11 key-i-of-the-command-is-looked-up-under-position-i] at Flight: 0 <= i && i < keys && arg1 == commands[1 + i] && arg2 == mgetcc
+//@   assert [C11 a-missed-key-is-appended-to-the-rewritten-command-in-key-order] at Args#1: len(arg1) == 1 && arg1[0] == key
+//@   assert [C11 a-failed-fetch-cancels-exactly-the-keys-it-asked-for] at Cancel: arg2 == mgetcc && arg3 == err
 //@ func mux.DoMultiCache #c11
 //@   option opaque-pkgs=github.com/redis/rueidis/internal/cmds
 //@   modifies *
